@@ -6,8 +6,10 @@ import (
 	"encoding/json"
 	"flag"
 	"fmt"
+	"github.com/sourcenetwork/defradb/verif/cluster"
 	"os"
 	"strings"
+	"sync/atomic"
 	"time"
 
 	"github.com/sourcenetwork/defradb/verif/mergereplay"
@@ -73,6 +75,8 @@ func main() {
 	if *deepOnly {
 		all = nil
 	}
+	var progress atomic.Int64
+	cluster.Watchdog(&progress, 4*time.Minute)
 	start := time.Now()
 	done := 0
 	for r := 0; r < *repeat; r++ {
@@ -82,6 +86,7 @@ func main() {
 			}
 			d.Replay(i, b)
 			done++
+			progress.Add(1)
 			if len(d.Result().Violations) > 50 {
 				break
 			}
